@@ -4,6 +4,7 @@ import (
 	"fmt"
 	"go/ast"
 	"go/token"
+	"go/types"
 	"sort"
 	"strings"
 )
@@ -112,6 +113,13 @@ func init() {
 		fmt.Fprintf(&sb, "/-- wal_reader.go readHeader: accepted version -/\ndef walVersion : Nat := %s\n", version)
 		fmt.Fprintf(&sb, "/-- wal_reader.go readHeader: `binary.BigEndian.Uint32(hdr[N:])` decodes, by offset -/\ndef readHeaderFields : List (Nat × String) := %s\n", leanPairs(be32Offsets(rh.Body)))
 		fmt.Fprintf(&sb, "/-- wal_reader.go readFrame: `binary.BigEndian.Uint32(hdr[N:])` decodes, by offset -/\ndef readFrameFields : List (Nat × String) := %s\n", leanPairs(be32Offsets(rf.Body)))
+		prods, narrow, widened, err := walWidthInventory(p, c)
+		if err != nil {
+			return "", err
+		}
+		fmt.Fprintf(&sb, "/-- every integer multiplication in the WAL offset arithmetic (all of wal_reader.go; db.go statements mentioning WALHeaderSize/WALFrameHeaderSize): (function, source, bit width the product is computed in) -/\ndef offsetProducts : List (String × String × Nat) :=\n  %s\n", leanWidthFacts(prods, false))
+		fmt.Fprintf(&sb, "/-- every conversion to an integer type narrower than its typed, non-constant operand, same scope: (function, source, target bits) -/\ndef narrowingConversions : List (String × String × Nat) :=\n  %s\n", leanWidthFacts(narrow, false))
+		fmt.Fprintf(&sb, "/-- every widening conversion whose operand is +,-,*,<< arithmetic done in fewer than 64 bits, same scope: (function, source, operand bits, operand contains a product) -/\ndef widenedNarrowArith : List (String × String × Nat × Bool) :=\n  %s\n", leanWidthFacts(widened, true))
 		sb.WriteString("\nend Litestream.Gen.Wal\n")
 		return sb.String(), nil
 	}
@@ -179,4 +187,178 @@ func leanPairs(l []offName) string {
 		parts = append(parts, fmt.Sprintf("(%s, %q)", e.off, e.name))
 	}
 	return "[" + strings.Join(parts, ", ") + "]"
+}
+
+// ---- integer-width inventory of the WAL offset arithmetic (go/types, imports faked) ----
+//
+// The Nat translation treats integer conversions as the identity, so a product computed in 32 bits
+// would be invisible to the model. This inventory makes the widths explicit:
+//   offsetProducts        every integer multiplication, with the bit width it is computed in
+//   narrowingConversions  every conversion to an integer type narrower than its (typed) operand
+//   widenedNarrowArith    every conversion to a wider integer type whose operand is +,-,*,<< arithmetic
+//                         carried out in a type of less than 64 bits (flag: the operand contains a product)
+// Scope: every function of wal_reader.go; in db.go only statements that mention WALHeaderSize or
+// WALFrameHeaderSize (the WAL offset arithmetic).
+
+type widthFact struct {
+	fn, src string
+	bits    int
+	mul     bool
+}
+
+func intBits(t types.Type) int {
+	b, ok := t.Underlying().(*types.Basic)
+	if !ok || b.Info()&types.IsInteger == 0 || b.Info()&types.IsUntyped != 0 {
+		return 0
+	}
+	switch b.Kind() {
+	case types.Int8, types.Uint8:
+		return 8
+	case types.Int16, types.Uint16:
+		return 16
+	case types.Int32, types.Uint32:
+		return 32
+	}
+	return 64 // int, uint, uintptr (64-bit targets), int64, uint64
+}
+
+func containsMul(e ast.Expr) bool {
+	found := false
+	ast.Inspect(e, func(n ast.Node) bool {
+		if b, ok := n.(*ast.BinaryExpr); ok && b.Op == token.MUL {
+			found = true
+		}
+		return !found
+	})
+	return found
+}
+
+func mentionsWALConst(n ast.Node) bool {
+	found := false
+	ast.Inspect(n, func(n ast.Node) bool {
+		if id, ok := n.(*ast.Ident); ok && (id.Name == "WALHeaderSize" || id.Name == "WALFrameHeaderSize") {
+			found = true
+		}
+		return !found
+	})
+	return found
+}
+
+func walWidthInventory(p *pkg, c *tctx) (products, narrowing, widened []widthFact, err error) {
+	var names []string
+	for n := range p.files {
+		names = append(names, n)
+	}
+	sort.Strings(names)
+	var files []*ast.File
+	for _, n := range names {
+		files = append(files, p.files[n])
+	}
+	info := &types.Info{Types: map[ast.Expr]types.TypeAndValue{}}
+	conf := types.Config{Importer: &fakeImporter{pkgs: map[string]*types.Package{}}, Error: func(error) {}, FakeImportC: true}
+	conf.Check("litestream", p.fset, files, info) // errors expected (imports are faked)
+
+	typeOf := func(e ast.Expr) types.Type {
+		if tv, ok := info.Types[e]; ok && tv.Type != nil {
+			return tv.Type
+		}
+		return nil
+	}
+	scan := func(fn string, root ast.Node) {
+		ast.Inspect(root, func(n ast.Node) bool {
+			switch x := n.(type) {
+			case *ast.BinaryExpr:
+				if x.Op == token.MUL {
+					if tv, ok := info.Types[x]; ok && tv.Value == nil && tv.Type != nil {
+						if b := intBits(tv.Type); b != 0 {
+							products = append(products, widthFact{fn: fn, src: c.src(x), bits: b})
+						}
+					}
+				}
+			case *ast.CallExpr:
+				if len(x.Args) != 1 {
+					return true
+				}
+				tv, ok := info.Types[x.Fun]
+				if !ok || !tv.IsType() {
+					return true
+				}
+				to := intBits(tv.Type)
+				at := typeOf(x.Args[0])
+				if to == 0 || at == nil {
+					return true
+				}
+				if av, ok := info.Types[x.Args[0]]; ok && av.Value != nil {
+					return true // constant operand: checked by the compiler
+				}
+				from := intBits(at)
+				if from == 0 {
+					return true
+				}
+				arg := ast.Unparen(x.Args[0])
+				if to < from {
+					narrowing = append(narrowing, widthFact{fn: fn, src: c.src(x), bits: to})
+				} else if be, ok := arg.(*ast.BinaryExpr); ok && from < 64 && to > from {
+					switch be.Op {
+					case token.ADD, token.SUB, token.MUL, token.SHL:
+						widened = append(widened, widthFact{fn: fn, src: c.src(x), bits: from, mul: containsMul(arg)})
+					}
+				}
+			}
+			return true
+		})
+	}
+	nReader := 0
+	for _, fname := range []string{"wal_reader.go", "db.go"} {
+		f, ok := p.files[fname]
+		if !ok {
+			return nil, nil, nil, fmt.Errorf("width inventory: %s not found", fname)
+		}
+		for _, d := range f.Decls {
+			fd, ok := d.(*ast.FuncDecl)
+			if !ok || fd.Body == nil {
+				continue
+			}
+			name := fd.Name.Name
+			if fname == "wal_reader.go" {
+				nReader++
+				scan(name, fd.Body)
+				continue
+			}
+			// db.go: only the statements that do WAL offset arithmetic
+			ast.Inspect(fd.Body, func(n ast.Node) bool {
+				switch s := n.(type) {
+				case *ast.AssignStmt, *ast.ReturnStmt, *ast.ExprStmt, *ast.IncDecStmt, *ast.DeclStmt:
+					if mentionsWALConst(s) {
+						scan("db." + name, s)
+					}
+					return false
+				case *ast.IfStmt:
+					if s.Init != nil && mentionsWALConst(s.Init) {
+						scan("db."+name, s.Init)
+					}
+					if mentionsWALConst(s.Cond) {
+						scan("db."+name, s.Cond)
+					}
+				}
+				return true
+			})
+		}
+	}
+	if nReader == 0 {
+		return nil, nil, nil, fmt.Errorf("width inventory: no functions found in wal_reader.go")
+	}
+	return products, narrowing, widened, nil
+}
+
+func leanWidthFacts(l []widthFact, withMul bool) string {
+	var parts []string
+	for _, e := range l {
+		if withMul {
+			parts = append(parts, fmt.Sprintf("(%q, %q, %d, %v)", e.fn, e.src, e.bits, e.mul))
+		} else {
+			parts = append(parts, fmt.Sprintf("(%q, %q, %d)", e.fn, e.src, e.bits))
+		}
+	}
+	return "[" + strings.Join(parts, ",\n   ") + "]"
 }
